@@ -1,4 +1,5 @@
 import Originium.Model.DiskProgMain
+import Originium.Model.LevelTie
 /-! # C03 — acknowledged commits survive a crash at any point, and Open always recovers
 
 Process-crash model: the disk after a kill is the disk after some prefix of the sequence of
@@ -120,10 +121,23 @@ example :
         .ev (.op (.walRemove 4))] s).isSome = true := by
   decide
 
+
+/-- the Go code itself (`levelManager.maxLevelIdx`, translated from /repo/level.go on every run): the index
+    `maxLevelIdx + 1` that names the next table written into a level — by a flush, an L0 or an LN compaction, also right
+    after a recovery, in whatever order the handles of the level are listed — is above the index of every table the level
+    holds, so writing the new table never replaces a live one -/
+theorem C03_code_fresh_table_name (idxs : List Int) :
+    (∀ x ∈ idxs, x < GenLevel.maxLevelIdx idxs + 1) ∧ GenLevel.maxLevelIdx [] + 1 = 0 :=
+  ⟨LevelTie.maxLevelIdx_fresh idxs, by rw [LevelTie.maxLevelIdx_empty]; rfl⟩
+
+/-- non-vacuity: handles listed as a recovery lists them (`0-10` before `0-2`) -/
+example : GenLevel.maxLevelIdx [0, 1, 10, 11, 2, 9] + 1 = 12 := by decide
+
 #print axioms C03_every_crash_point
 #print axioms C03_open_recovers
 #print axioms C03_acked_visible
 #print axioms C03_nothing_invented
 #print axioms C03_program_obeys_rules
 #print axioms C03_program_crash_anywhere
+#print axioms C03_code_fresh_table_name
 end Props
